@@ -5,10 +5,16 @@ import KavaVerif.Model.Cdp
 
   One self-contained case per line (`c04.op`):
     kind  params  pre-state  args  "=>"  result  post-state  tol
-  kind   ∈ create | deposit | withdraw | draw | repay | liquidate | begin
-  params = types `;`-separated, each `denom,liqRatio,debtLimit,feeIsOne,keeperReward,checkCount,cf,spot,liq`
+  kind   ∈ create | deposit | withdraw | draw | repay | liquidate | begin | params
+           (`params` = a governance parameter change at a block boundary: the params field carries the NEW
+            parameters, the model step is the identity)
+  params = the parameters IN FORCE for this step, read from the x/params store:
+           types `;`-separated, one per type of the universe in type-name order, each
+           `denom,liqRatio,debtLimit,feeIsOne,keeperReward,checkCount,cf,spot,liq[,active]`
+           (active = 0: the type is not listed in CollateralParams at this step; denom and cf stay)
            `|` globals `debtCf,debtFloor,globalLimit,surplusThr,surplusLot,debtThr,debtLot,genesisUsdx,nDenoms,nMarkets`
            `|` user accounts (comma separated, ascending = address byte order)
+           [`|` positions of the listed types in the order of CollateralParams (the begin blocker's loop order)]
   state  = 12 sections separated by `|`:
            nextId | cdps `id:owner:ty:coll:prin:fees:updated:ifac;…` | deposits `id:acct:amt;…` |
            owner index `acct:id.id;…` (raw store iteration) | ratio index `ty:key:id;…` (raw store order) |
@@ -68,14 +74,29 @@ def parseColl (s : String) : Option CollParam :=
     let spot ← nat? spot
     let liq ← nat? liq
     pure { denom := denom, liqRatio := ⟨lr⟩, debtLimit := dl, feeIsOne := fo, keeperReward := ⟨kr⟩,
-           checkCount := cc, cf := cf, spot := spot, liq := liq }
+           checkCount := cc, cf := cf, spot := spot, liq := liq, active := true }
+  | [denom, lr, dl, fo, kr, cc, cf, spot, liq, act] => do
+    let denom ← nat? denom
+    let lr ← int? lr
+    let dl ← int? dl
+    let fo ← bool? fo
+    let kr ← int? kr
+    let cc ← int? cc
+    let cf ← nat? cf
+    let spot ← nat? spot
+    let liq ← nat? liq
+    let act ← bool? act
+    pure { denom := denom, liqRatio := ⟨lr⟩, debtLimit := dl, feeIsOne := fo, keeperReward := ⟨kr⟩,
+           checkCount := cc, cf := cf, spot := spot, liq := liq, active := act }
   | _ => none
 
 def parseU (s : String) : Option U :=
-  match s.splitOn "|" with
-  | [tys, glob, users] => do
+  let go := fun (tys glob users : String) (order : Option String) => do
     let colls ← (sec tys ";").mapM parseColl
     let users ← nats? users
+    let order ← match order with
+      | none => some (List.range colls.length)
+      | some o => nats? o
     match glob.splitOn "," with
     | [dcf, fl, gl, st, sl, dt, dlot, gu, nd, nm] => do
       let dcf ← nat? dcf
@@ -89,10 +110,14 @@ def parseU (s : String) : Option U :=
       let nd ← nat? nd
       let nm ← nat? nm
       pure { E := { P := { colls := colls, debtCf := dcf, debtFloor := fl, globalLimit := gl,
-                            surplusThreshold := st, surplusLot := sl, debtThreshold := dt, debtLot := dlot },
+                            surplusThreshold := st, surplusLot := sl, debtThreshold := dt, debtLot := dlot,
+                            order := order },
                     accts := users },
-             nDen := nd, nMkt := nm, genUsdx := gu, users := users }
+             nDen := nd, nMkt := nm, genUsdx := gu, users := users : U }
     | _ => none
+  match s.splitOn "|" with
+  | [tys, glob, users] => go tys glob users none
+  | [tys, glob, users, order] => go tys glob users (some order)
   | _ => none
 
 def parseCdp (s : String) : Option (Nat × Cdp) :=
@@ -231,6 +256,7 @@ def runOp (u : U) (kind : String) (a : List Int) (s : St) : Option (Res St) :=
   | "repay", [now, o, ty, p, pd] => some (repay E now s o.toNat ty.toNat p pd.toNat)
   | "liquidate", [now, k, o, ty] => some (liquidate E now s k.toNat o.toNat ty.toNat)
   | "begin", now :: skip :: facs => some (beginBlock E now (skip != 0) (facs.map (fun m => (⟨m⟩ : Dec))) s)
+  | "params", _ => some (.ok s)      -- a parameter change touches no x/cdp state; `E` already is the new environment
   | _, _ => none
 
 def resClass {α : Type} : Res α → String
@@ -307,6 +333,50 @@ def closeReturns (u : U) (pre post : Obs) (owner ty : Nat) : Option String :=
       else if post.deps.any (fun x => x.1 == id) then some "deposit-left"
       else none
 
+/-- debt of a CDP including the interest accrued up to the global factor of state `g` -/
+def syncedDebt (g : St) (c : Cdp) : Int := c.prin + c.fees + (newInterest g c).getD 0
+
+/-- begin block, per listed type whose two feeds are up: the interest accrued is the one of the stability fee
+    IN FORCE (`f` = what `CalculateInterestFactor` returns for the fee in the x/params store and the elapsed
+    time): the global interest factor continues as `old · f` (unchanged when nothing accrues), and the total
+    principal moves by exactly that interest minus the debts of the CDPs seized in the block -/
+def accrualPred (u : U) (args : List Int) (pre post : Obs) : Option (String × String) :=
+  match args with
+  | now :: _ :: facs =>
+    let sPre := stOf pre
+    let gAfter : St := { sPre with ifac := (stOf post).ifac }
+    (blockTypes u.E (facs.map (fun m => (⟨m⟩ : Dec)))).findSome? (fun x =>
+      let ty := x.1
+      let cp := x.2.1
+      let f := x.2.2
+      if (sPre.price cp.spot).isNone || (sPre.price cp.liq).isNone then none else
+      let tp := pre.tprin.getD ty 0
+      let g0 := sPre.ifac ty
+      let exp : Int × Option Dec :=
+        match sPre.accr ty with
+        | none => (0, g0)
+        | some prev =>
+          if now == prev || tp ≤ 0 then (0, g0) else
+          match g0 with
+          | none => (0, some Dec.one)
+          | some g =>
+            if cp.feeIsOne then (0, some g) else
+            let a := Dec.roundInt (Dec.mul f (Dec.ofInt tp)) - tp
+            if a == 0 then (0, some g) else (a, some (Dec.mul g f))
+      let gPost := (stOf post).ifac ty
+      if (gPost.map (·.m)) != (exp.2.map (·.m)) then
+        some ("C04_total_principal_partial",
+          if exp.1 == 0 then s!"type-{ty}-interest-factor-moved-although-nothing-accrues-at-the-fee-in-force"
+          else s!"type-{ty}-interest-factor-not-continued-at-the-fee-in-force")
+      else
+        let gone := pre.cdps.filter (fun e => e.2.ty == ty && (post.cdps.lookup e.1).isNone)
+        let want := tp + exp.1 - sumI (gone.map (fun e => syncedDebt gAfter e.2))
+        if want < 0 then none          -- `DecrementTotalPrincipal` clamps at 0: not replayed
+        else if post.tprin.getD ty 0 != want then
+          some ("C04_total_principal_partial", s!"type-{ty}-total-principal-not-moved-by-the-interest-in-force-and-the-seized-debts")
+        else none)
+  | _ => none
+
 def handle : Handler
   | [kind, params, pre, args, _, result, post, tol] =>
     match parseU params, parseObs pre, ints? args, parseObs post, ints? tol with
@@ -329,6 +399,14 @@ def handle : Handler
                  | some why => predfail "C04_close_returns_deposits" why
                  | none => "ok")
               | _ => "ok"
+            else if kind == "begin" then
+              (match accrualPred u args pre post with
+               | some (name, tag) => predfail name tag
+               | none => "ok")
+            else if kind == "params" then
+              -- the change itself moves nothing: `Inv4` (checked above under the NEW parameters) is kept
+              -- because the stored data is untouched
+              (if sameObs pre post then "ok" else predfail "C04_param_change_preserves_inv" "state-changed-by-the-parameter-change")
             else "ok"
         if pred != "ok" then pred else
         -- (1) model vs implementation
